@@ -196,11 +196,25 @@ def call_native(eng, obj, args, kwargs, st):
     # repo functions
     mod = getattr(obj, "__module__", None) or ""
     if isinstance(obj, types.FunctionType) and mod.startswith("doctrans"):
+        if getattr(eng, "concrete_fallback", False) and all(_concrete(a) for a in args) and all(_concrete(v) for v in kwargs.values()):
+            snap = st.copy()
+            try:
+                return eng.call_repo_function(obj, args, kwargs, st)
+            except Unsupported:
+                try:
+                    return ok(eng.lift(obj(*args, **kwargs)), snap)
+                except Exception as e:  # noqa
+                    return err(type(e).__name__, str(e), snap)
         return eng.call_repo_function(obj, args, kwargs, st)
     if isinstance(obj, type) and issubclass(obj, BaseException):
         return ok(Opq(fresh("excobj", Obj), obj.__name__), st)
     # all-concrete pure builtins
     if all(_concrete(a) for a in args) and all(_concrete(v) for v in kwargs.values()) and _key(obj) in PURE_OK:
+        try:
+            return ok(eng.lift(obj(*args, **kwargs)), st)
+        except Exception as e:  # noqa
+            return err(type(e).__name__, str(e), st)
+    if getattr(eng, "concrete_fallback", False) and callable(obj) and all(_concrete(a) for a in args) and all(_concrete(v) for v in kwargs.values()):
         try:
             return ok(eng.lift(obj(*args, **kwargs)), st)
         except Exception as e:  # noqa
